@@ -23,7 +23,7 @@ claim("C04", "DESIGN.md 5 C04",
       "for every value any writer stores (setLayerInfo requires INV at every call site; loads assume it: rely/guarantee, hence for all interleavings). "
       "Write's per-packet transition rules are postconditions over the old and new word and PacketFlags' result: sid changes only at a keyframe start or when following a new top layer; tid falls only at a frame start and rises only at a keyframe, "
       "an up-switch point not above the wanted layer, or following a new top layer; an in-order packet above the selection is withheld (nothing emitted, recorded by the map); limitSid forces sid 0 at the next keyframe. "
-      "adjustLayer moves only the wanted layers by one step within the seen range; updateRate's value is always within [minLossRate, maxLossRate] with no 64-bit overflow.",
+      "adjustLayer moves only the wanted layers by one step within the seen range; updateRate's value is always within [minLossRate, maxLossRate] with no 64-bit overflow, and the ceiling GetMaxBitrate reports is at least minLossRate unless the receiver's own estimate is lower - also before the first receiver report (a new track reported 0 during the first 30 s of the process: repaired).",
       "Assumed: atomics are modelled as plain accesses within one function body (sequential), estimator readings arbitrary, pion TID/SID field widths. "
       "replaceTracks' deferred update of the word (limitSid installed as requested, wanted spatial layer forced to 0, selection untouched, INV kept) is verified too, and replaceTracks itself guarantees that on every successful return - also when the set of tracks did not change - every track of the connection carries the request. "
       "Not decided: lost updates of the transition bookkeeping when Write and adjustLayer race.")
@@ -113,12 +113,12 @@ claim("C17", "DESIGN.md 5 C17",
 
 claim("C18", "DESIGN.md 5 C18",
       "webserver/precondition.go: etagMatch never matches without a header or for an absent object (not even '*') and matches an identical tag; checkPreconditions answers 412 when If-Match is present and does not match, 304 (GET/HEAD) or 412 (writes) when If-None-Match matches, and otherwise lets the request through having sent nothing - "
-      "stated over etagMatch as a pure function, for all header values. The handlers pass the tag they evaluated to the update. group/description.go: UpdateDescription, DeleteDescription, UpdateUser, DeleteUser, SetUserPassword, SetKeys are proved to read, compare and replace the definition inside ONE critical section of groups.mu "
+      "stated over etagMatch as a pure function, for all header values, where the value of a header is the comma-joined list of ALL its lines (only the first line was read - and my contract said so too: repaired and restated). The handlers pass the tag they evaluated to the update. group/description.go: UpdateDescription, DeleteDescription, UpdateUser, DeleteUser, SetUserPassword, SetKeys are proved to read, compare and replace the definition inside ONE critical section of groups.mu "
       "(lock ghost: held at the read, at the comparison and at the write), to write only if the caller's tag equals the tag of the definition just read (empty tag: only if the object is absent), hence of concurrent writers with one tag at most one succeeds. "
       "rewriteDescriptionFile: the definition's path is touched by exactly one operation, os.Rename from a temporary file in the same directory, and only after Encode, Sync and Close all succeeded; every clean-up removes the temporary file only.",
       "Assumed: os.Rename is atomic on one file system, fsync makes the data durable, the file system is shared with nobody who bypasses groups.mu (another process editing files), makeETag is a deterministic function of size and mtime "
       "(two versions with equal size AND equal mtime are indistinguishable: the statement's 'differing in size or modification time'). "
-      "Not decided: etagMatch's list/weak-tag parsing beyond the three stated clauses (scanETag is proved panic-free only), crash behaviour of the file system itself, readers that race with a rename on non-POSIX systems.")
+      "Not decided: etagMatch's list/weak-tag parsing beyond the three stated clauses (scanETag is proved panic-free only), crash behaviour of the file system itself, readers that race with a rename on non-POSIX systems; the .keys and .password endpoints do not compare the request's preconditions at all (SetKeys / SetUserPassword take no tag: observed, executed by a sub-agent, described in DESIGN.md 10.2, not repaired).")
 
 claim("C08", "DESIGN.md 5 C08",
       "group/group.go, client.go, description.go: Description.getPasswordPermission is proved to admit a username/password iff the username has an entry whose password matches (the wildcard is then not consulted), or has no entry and the wildcard user's password matches, "
